@@ -2,6 +2,8 @@
 (* Constant definitions for the TLC configurations of Election.tla (MC_*.cfg). *)
 EXTENDS Election
 
+JIT_C == {1}                              \* regime C (coarse): unit 100 ms
+BO_C == <<1, 1, 2>>
 JIT_S == {1, 2}                           \* regime S: unit 50 ms: jitter 10..100 ms -> 1..2
 BO_S == <<1, 2, 4>>                       \* back-off 50/100/200 ms
 SK_All == {"stop", "ctxdel"}
@@ -31,6 +33,13 @@ CONN_A == [i \in Inst |-> i = "A"]
 D_attempt_while_leading == {"attempt_while_leading"}
 D_double_promotion == {"double_promotion"}
 D_start_failure_demotes_leader == {"start_failure_demotes_leader"}
+D_hb_no_recheck_after_health == {"hb_no_recheck_after_health"}
+D_watch_acts_after_cancel == {"watch_acts_after_cancel"}
+D_validate_without_leader_gate == {"validate_without_leader_gate"}
+D_validate_fast_path == {"validate_fast_path"}
+D_closed_suppresses_grace == {"closed_suppresses_grace"}
+D_verify_sets_connected_after_newer_disconnect == {"verify_sets_connected_after_newer_disconnect"}
+D_verification_failure_without_demotion == {"verification_failure_without_demotion"}
 D_claim_after_stop == {"claim_after_stop"}
 D_conflict_transient == {"conflict_transient"}
 D_delete_without_owner_check == {"delete_without_owner_check"}
